@@ -357,6 +357,16 @@ func runReplay(w *world, j *judge, cs childSpec) error {
 		return err
 	}
 	switch head.Mode {
+	case "revoke":
+		cs.N = 5
+		return runRevoke(w, j, cs)
+	case "hang", "churn":
+		// schedule dependent: repeat the history class that produced it
+		cs.N = 80
+		return runChurn(w, j, cs)
+	case "wire-malformed":
+		cs.N = 1
+		return runWire(w, j, cs)
 	case "history":
 		var hr historyReplay
 		if err := json.Unmarshal(cs.Replay, &hr); err != nil {
